@@ -488,7 +488,8 @@ pub fn run(ctx: &Ctx, rec: &mut Recorder) -> Result<(), String> {
         let witness = |extra: Value| {
             // keep the input itself: /verif/replays/C01/inputs/<sha1>.bin
             let sha = crate::dump::sha1_hex(&bytes);
-            let p = std::path::PathBuf::from("/verif/replays/C01/inputs").join(format!("{sha}.bin"));
+            let root = std::env::var("VERIF_TRIAL").unwrap_or_else(|_| "/verif".into());
+            let p = std::path::PathBuf::from(root).join("replays/C01/inputs").join(format!("{sha}.bin"));
             crate::rec::write_file(&p, &bytes);
             json!({"case": id, "kind": desc, "seed": ctx.seed, "len": bytes.len(), "input_file": p.display().to_string(),
                    "input_hex": if bytes.len() <= 6000 { json!(hex(&bytes)) } else { Value::Null }, "extra": extra})
